@@ -93,8 +93,10 @@ def _run(ctx, enzyme, v, mods, order=None):
     from moclo.record import CircularRecord
 
     V, M = gen.generic_classes(enzyme)
-    vec = V(CircularRecord(Seq(_plasmid(enzyme, "V", v[0], v[1])), "v"))
-    ents = [M(CircularRecord(Seq(_plasmid(enzyme, "M", a, b)), "m%d" % i)) for i, (a, b) in enumerate(mods)]
+    # record-wide annotations of any shape: the outcome is a function of the overhang graph, not of the plasmids' metadata
+    ann = lambda *k: gen.annotation_variety("c03", enzyme, *k)
+    vec = V(CircularRecord(Seq(_plasmid(enzyme, "V", v[0], v[1])), "v", annotations=ann("v", v[0], v[1], len(mods))))
+    ents = [M(CircularRecord(Seq(_plasmid(enzyme, "M", a, b)), "m%d" % i, annotations=ann("m", a, b, i))) for i, (a, b) in enumerate(mods)]
     ctx.count("evaluations")
     _mon.tag = {"v": list(v), "mods": [list(x) for x in mods]}
     import warnings
